@@ -211,7 +211,21 @@ impl Sess {
                 _ => {}
             }
         }
-        ev
+        // the 65 792 mkdirs of a pre-created CAS tree are one abstract event in the model
+        let mut out: Vec<String> = Vec::with_capacity(ev.len());
+        let mut i = 0;
+        while i < ev.len() {
+            if ev[i].starts_with("mkdir cas/") {
+                let mut j = i;
+                while j < ev.len() && ev[j].starts_with("mkdir cas/") { j += 1; }
+                if j - i >= 1000 { out.push("mkdir-tree".to_string()); } else { out.extend_from_slice(&ev[i..j]); }
+                i = j;
+            } else {
+                out.push(ev[i].clone());
+                i += 1;
+            }
+        }
+        out
     }
 
     fn digest(b: &[u8]) -> String {
@@ -302,7 +316,70 @@ impl Sess {
                 ev.sort();
                 if ev.is_empty() { "_".to_string() } else { ev.join(";") }
             }
+            ["plant", content] => {
+                // write a stray blob file at its canonical CAS path, behind the store's back
+                let c = crate::wire::unhx(content);
+                let h = blake3::hash(&c).to_hex().to_string();
+                let d = self.dir.join("cas").join(&h[0..2]).join(&h[2..4]);
+                std::fs::create_dir_all(&d).expect("plant dir");
+                std::fs::write(d.join(&h[4..]), &c).expect("plant file");
+                "ok".to_string()
+            }
+            ["tracedrop"] => { self.pending_trace.clear(); let _ = self.take_trace(); "ok".to_string() }
+            // change the configuration used by later opens (same directory, new worker session)
+            ["recfg", rest @ ..] => {
+                self.cfgline = format!("cfg {}", rest.join(" "));
+                if self.worker.is_some() {
+                    let c = self.cfgline.clone();
+                    if self.raw(&c).is_none() { self.reap(); }
+                }
+                "ok".to_string()
+            }
+            // overwrite db_settings.json behind the store's back (canonical serde_json form)
+            ["setsettings", ver, pre, n] => {
+                let txt = format!("{{\"version\":{},\"dir_tree_is_pre_created\":{},\"num_ops_per_wal\":{}}}", ver, if *pre == "1" { "true" } else { "false" }, n);
+                std::fs::write(self.dir.join("db_settings.json"), txt).expect("write settings");
+                "ok".to_string()
+            }
+            // a SECOND PROCESS tries to open the directory while (or after) this one holds it
+            ["open_other"] => {
+                let exe = std::env::current_exe().expect("exe");
+                let log2 = self.work.join("fsio2.log");
+                let _ = std::fs::remove_file(&log2);
+                let mut cmd = Command::new(exe);
+                cmd.arg("worker").stdin(Stdio::piped()).stdout(Stdio::piped()).stderr(Stdio::null());
+                if self.interposed { cmd.env("LD_PRELOAD", so_path()).env("FSIO_LOG", &log2); }
+                let mut child = cmd.spawn().expect("spawn second worker");
+                let mut stdin = child.stdin.take().unwrap();
+                let mut stdout = BufReader::new(child.stdout.take().unwrap());
+                let mut ask = |l: &str| -> String {
+                    let _ = writeln!(stdin, "{l}");
+                    let _ = stdin.flush();
+                    let mut r = String::new();
+                    let _ = stdout.read_line(&mut r);
+                    r.trim_end().to_string()
+                };
+                ask(&format!("dir {}", self.dir.display()));
+                let c = self.cfgline.clone();
+                ask(&c);
+                let r = ask("open");
+                ask("exit");
+                let _ = child.wait();
+                // what the other process did to the directory (mutating calls)
+                let t = std::fs::read_to_string(&log2).unwrap_or_default();
+                let evs: Vec<String> = t.lines().filter(|l| !l.starts_with('#')).map(|l| l.split(' ').take(2).collect::<Vec<_>>().join(" ")).collect();
+                format!("{} other_events={}", r, if evs.is_empty() { "_".to_string() } else { evs.join(";") })
+            }
             ["dump"] => self.dump(),
+            ["conc", _policy, progs @ ..] => {
+                if self.worker.is_none() { self.spawn(); }
+                let r = self.raw(line).unwrap_or_else(|| "sched= crashed".into());
+                let (sched, obs) = r.split_once(' ').unwrap_or((&r, ""));
+                // the request recorded for the model carries the schedule that was actually run
+                let req = format!("conc {} {}", sched, progs.join(" "));
+                self.out.push(req, obs.to_string());
+                return obs.to_string();
+            }
             ["plossnext", k, spec] => {
                 if self.worker.is_none() { self.spawn(); }
                 self.ploss = Some(spec.to_string());
